@@ -17,7 +17,7 @@ UNSAFE = ["\t", "\n", "\r", "\r\n"]
 FORM_ATOMS = ["a", "Z", "0", "xy", " ", "%", "+", ";", ":", ",", "!", "é", "中文", "\U0001F600", "naïve", "-", "_", ".", "&", "="]
 HNAMES = [b"X-A", b"x-lower", b"Accept", b"User-Agent", b"Connection", b"Cookie", b"Cookie", b"X_Under", b"X-1", b"ETag", b"If-None-Match", b"Host", b"accept-encoding",
           b"Content-Type", b"X.Dot", b"x-a", b"AUTHORIZATION"]
-HVALS = [b"1", b"", b" ", b" lead", b"trail ", b"a: b", b"text/html, application/json;q=0.9", b"caf\xe9", b"\xff\x00\x80", b"keep-alive", b"a\tb", b"x" * 200,
+HVALS = [b"\xc3\xa9tude", b"\xc3\xbc", b"\xe2\x82\xac 5", b"\xc2\xa0", b"1", b"", b" ", b" lead", b"trail ", b"a: b", b"text/html, application/json;q=0.9", b"caf\xe9", b"\xff\x00\x80", b"keep-alive", b"a\tb", b"x" * 200,
          b"Bearer abc.def", b"k=v; k2=v2", b"identity", b"other.example:81"]
 
 
@@ -26,6 +26,35 @@ def _dups(headers):
     for n, v in headers:
         seen.setdefault(n.lower(), []).append(v)
     return {k: vs for k, vs in seen.items() if len(vs) > 1}
+
+
+def _l1(t):
+    """a str the code recovered, as latin-1 bytes when it fits (what the byte-level model predicts), else an escaped form that can equal
+    no model output — an observation, never a crash"""
+    try:
+        return t.encode("latin-1")
+    except UnicodeEncodeError:
+        return b"\xff<not-latin-1>" + t.encode("utf-8", "surrogatepass")
+
+
+def _u8(t):
+    return t.encode("utf-8", "surrogatepass")
+
+
+def _pathpart(path):
+    """what Requester keeps as .path after build(): the path proper, without query and fragment"""
+    p = path.split(b"#", 1)[0]
+    return p.split(b"?", 1)[0]
+
+
+def effective(specs):
+    """specs with the path every request is really built from: a `reuse` request (mode 2) takes the stored path of its predecessor"""
+    out = []
+    for i, sp in enumerate(specs):
+        if sp[7] == 2 and sp[7] is not True and i > 0:
+            sp = (sp[0], _pathpart(out[-1][1])) + tuple(sp[2:])
+        out.append(tuple(sp))
+    return out
 
 
 class C14(core.Check):
@@ -50,10 +79,10 @@ class C14(core.Check):
                   "multipart forms and paths that urlsplit would re-split ('?', '#', leading '//') are declined by the model (Exn.unmodelled) and never generated.")
     quick_n = 1200
     thorough_n = 30000
-    rule = ("case = sequence of 1..6 requests sent over ONE server connection (one Requestant, reused; fresh Requester or Requester.rebuild), request stream cut at random points; "
+    rule = ("case = sequence of 1..6 requests sent over ONE server connection (one Requestant, reused; fresh Requester, Requester.rebuild with path=, or rebuild WITHOUT path= so that the stored path is used again), request stream cut at random points; "
             "each request = (method in any case, unicode path with reserved / percent-look-alike / non-ASCII characters, optionally a query string written on the path "
             "('+', escapes in names and values, names colliding with the dict) and a fragment, query dict with arbitrary string keys and values, header list (token names, "
-            "latin-1 values without CR/LF, incl. repeated names), body raw | JSON data | urlencoded form | multipart form (non-ASCII field text), explicit Content-Length or not); "
+            "values over the full latin-1 range without CR/LF incl. byte sequences that are valid UTF-8, repeated names), body raw | JSON data | urlencoded form | multipart form (non-ASCII field text), explicit Content-Length or not); "
             "later requests of a sequence drop headers / body of earlier ones; plus direct quote/unquote/parse_qsl cross-checks against urllib.parse.  "
             "non-trivial = more than one request, or a reserved / non-ASCII character in path or query, or >= 2 headers, or a body; distinct by request line")
     trusted_base = ["correspondence harness/props/C14.py: compiled model driver vs Requester.build + Requestant + Server.buildEnviron (harness/areas/httpflow.py c14_run)",
@@ -94,6 +123,13 @@ class C14(core.Check):
                      (b"PUT", u("/4"), [], [], 1, b'{"k":"v"}', False, False)], ([], 1)),
             ("seq", [(b"POST", u("/a"), [], [], 2, [(u("f"), u("é"))], False, True), (b"DELETE", u("/b"), [], [(b"X-A", b"1")], 0, b"", False, True),
                      (b"GET", u("/c?x=1"), [], [], 0, b"", False, False)], ([40, 90, 200], 2)),
+            # latin-1 header values whose bytes are valid UTF-8 must come back as the same latin-1 text
+            one(b"GET", u("/h"), [], [(b"X-Name", b"\xc3\xa9tude"), (b"X-Euro", b"\xe2\x82\xac"), (b"X-Mixed", b"caf\xe9 \xc3\xbc")], 0, b"", False),
+            # a second and third build on the same Requester WITHOUT path=: the stored path (space, unicode, '%') is used again, not re-quoted
+            ("seq", [(b"GET", u("/a b/é%41/50%"), [(u("q"), u("1"))], [], 0, b"", False, True),
+                     (b"POST", u("/ignored"), [], [(b"X-A", b"1")], 0, b"body", False, 2),
+                     (b"GET", u("/ignored-too"), [(u("z"), u("2"))], [], 0, b"", False, 2)], ([], 1)),
+            ("seq", [(b"GET", u("/p q?x=1#f"), [], [], 0, b"", False, True), (b"GET", u("/zz"), [], [], 0, b"", False, 2)], ([60], 2)),
             ("quote", u("a b/é%+~")), ("unquote", b"%41%zz%%4a%4"), ("unquote_plus", b"a+b%2Bc%"), ("parse_qsl", b"a=1&&b&=c&d=%26+x&=&&"), ("parse_qsl", b""),
         ]
 
@@ -126,8 +162,14 @@ class C14(core.Check):
                   (b"DELETE", b"/x", [], [(b"X-Token", b"u"), (b"Accept", b"*/*")], 0, b"zz", True)]
         for a in shapes:
             for b in shapes:
-                for fresh in (True, False):
+                for fresh in (True, False, 2):
                     cs.append(("seq", [a + (True,), b + (fresh,)], ([], 1)))
+        for cp in list(range(32, 0x180)) + [0x20ac, 0x4e2d]:
+            ch = chr(cp)
+            if ch not in "?#":
+                cs.append(("seq", [(b"GET", ("/s" + ch + "e").encode("utf-8"), [], [], 0, b"", False, True), (b"GET", b"/unused", [], [], 0, b"", False, 2)], ([], 1)))
+            if cp > 127:
+                cs.append(one(b"GET", b"/v", [], [(b"X-U", ch.encode("utf-8")), (b"X-W", b"a" + ch.encode("utf-8"))], 0, b"", False))
         return cs, ("every code point < U+0300 as path character, dict query key/value, path-borne query name/value and multipart field text; every byte 32..255 "
                     "(except CR LF) as header value and body; quote/quote_plus of every byte; every ordered pair of 7 request shapes on one connection (fresh / rebuilt Requester)")
 
@@ -189,7 +231,13 @@ class C14(core.Check):
                 name = "".join(rng.choice(TOKEN) for _ in range(rng.choice([1, 2, 5, 12]))).encode("ascii")
             if name.lower().decode() in SPECIAL:
                 continue
-            v = rng.choice(HVALS) if rng.random() < 0.6 else bytes(rng.choice([rng.randrange(32, 256), rng.randrange(32, 127), 9]) for _ in range(rng.randrange(0, 12)))
+            c = rng.random()
+            if c < 0.45:
+                v = rng.choice(HVALS)
+            elif c < 0.7:     # latin-1 text whose bytes happen to be valid UTF-8 ('Ã©tude', 'â\x82¬' ...): still latin-1 for HTTP
+                v = self._text(rng, rng.choice([1, 2, 3]), ["é", "ü", "€", "中", "\U0001F600", "a", " ", "tude", "ß", "ñ"]).encode("utf-8")
+            else:
+                v = bytes(rng.choice([rng.randrange(32, 256), rng.randrange(128, 256), rng.randrange(32, 127), 9]) for _ in range(rng.randrange(0, 12)))
             v = bytes(x for x in v if x not in (10, 13))
             if b"close" in v.lower():
                 continue
@@ -221,7 +269,7 @@ class C14(core.Check):
             headers = [h for h in headers if h[0].lower() != b"content-type"]
             if rng.random() < 0.45:
                 headers.insert(rng.randrange(len(headers) + 1), (rng.choice([b"Content-Type", b"content-type"]), rng.choice([b"multipart/form-data", b"multipart/form-data; boundary=x"])))
-        return (method, u(path), [(u(a), u(c)) for a, c in qargs.items()], headers, bkind, bval, explicit, rng.random() < 0.5)
+        return (method, u(path), [(u(a), u(c)) for a, c in qargs.items()], headers, bkind, bval, explicit, rng.choice([True, True, False, False, 2, 2]))
 
     def generate(self, rng, n, tier):
         u = lambda s: s.encode("utf-8")
@@ -249,7 +297,7 @@ class C14(core.Check):
         if case[0] != "seq":
             return (case[0], case[1])
         out = []
-        for method, path, qargs, headers, bkind, bval, explicit, fresh in case[1]:
+        for method, path, qargs, headers, bkind, bval, explicit, fresh in effective(case[1]):
             hs = list(headers)
             if bkind == 0 and explicit:
                 hs.append((b"Content-Length", str(len(bval)).encode()))
@@ -281,11 +329,11 @@ class C14(core.Check):
         builts = [b if isinstance(b, bytes) else ("raise", "unmodelled") for b in o["builts"]]
         views, extras = [], []
         for v in o["views"]:
-            views.append(("ok", v["method"].encode("latin-1"), v["path"].encode("utf-8", sp),
-                          [(k.encode("utf-8", sp), w.encode("utf-8", sp)) for k, w in v["query"]],
-                          [(k.encode("latin-1"), w.encode("latin-1")) for k, w in v["headers"]], v["body"]))
-            extras.append(([(k.encode("latin-1"), w.encode("latin-1")) for k, w in sorted(v["env"].items())], v["env_method"].encode("latin-1"),
-                           v["env_path"].encode("utf-8", sp), v["env_body"]))
+            views.append(("ok", _l1(v["method"]), _u8(v["path"]), [(_u8(k), _u8(w)) for k, w in v["query"]],
+                          [(_l1(k), _l1(w)) for k, w in v["headers"]], v["body"]))
+            # exact code-point strings (as UTF-8) for the oracle
+            extras.append(([(_u8(k), _u8(w)) for k, w in sorted(v["env"].items())], _u8(v["env_method"]), _u8(v["env_path"]), v["env_body"],
+                           [(_u8(k), _u8(w)) for k, w in v["headers"]]))
         if o["raised"]:
             views.append(("error", o["raised"]))
         elif len(o["views"]) < o["n_sent"]:
@@ -356,8 +404,11 @@ class C14(core.Check):
         import email.policy
         method, path, qargs, headers, bkind, bval, explicit, fresh = spec
         _, rmethod, rpath, rquery, rheaders, rbody = view
-        env_items, env_method, env_path, env_body = extra
-        env = {k.decode("latin-1"): v.decode("latin-1") for k, v in env_items}
+        env_items, env_method, env_path, env_body, hdr_items = extra
+        sp = "surrogatepass"
+        env = {k.decode("utf-8", sp): v.decode("utf-8", sp) for k, v in env_items}
+        # header fields as the exact code-point strings the server holds; the client's bytes mean latin-1 text
+        rstr = [(k.decode("utf-8", sp), v.decode("utf-8", sp)) for k, v in hdr_items]
         bad = []
         if rmethod != method.upper() or env_method != method.upper():
             bad.append("method")
@@ -377,7 +428,7 @@ class C14(core.Check):
         for n, v in hs:
             if n.lower() == b"content-type" and multipart:
                 continue                      # replaced by the client (boundary added)
-            if (n.lower(), v) not in rheaders:
+            if (n.decode("latin-1").lower(), v.decode("latin-1")) not in rstr:
                 bad.append("header-values")
                 break
             key = "HTTP_" + n.decode("ascii").upper().replace("-", "_")
@@ -390,7 +441,7 @@ class C14(core.Check):
             allowed |= {b"content-length"}
         if not is_get and bkind in (1, 2):
             allowed |= {b"content-type"}
-        if any(k not in allowed for k, _ in rheaders):
+        if any(k.encode("utf-8", sp) not in allowed for k, _ in rstr):
             bad.append("header-not-sent")
         allowed_env = {"HTTP_" + k.decode("ascii").upper().replace("-", "_") for k in allowed} | {"CONTENT_TYPE", "CONTENT_LENGTH"}
         if any(k not in allowed_env for k in env):
@@ -441,7 +492,7 @@ class C14(core.Check):
 
     def _clauses(self, case, obs):
         """[(index of the request, clause)] — judged only while every request so far is inside the quantifier"""
-        specs = case[1]
+        specs = effective(case[1])
         builts, views, (_, extras, leftover, closed) = obs
         out = []
         for i, spec in enumerate(specs):
@@ -498,7 +549,7 @@ class C14(core.Check):
     def known(self, case, obs, clauses):
         if case[0] != "seq":
             return None
-        specs = case[1]
+        specs = effective(case[1])
         builts, views, (_, extras, leftover, closed) = obs
         ids = []
         for i, c in self._clauses(case, obs):
@@ -524,11 +575,12 @@ class C14(core.Check):
         if case[0] != "seq":
             return ["stdlib:" + case[0]]
         f = [f"seq={min(len(case[1]), 6)}", "fragmented" if case[2][0] else "whole"]
-        for i, sp in enumerate(case[1]):
+        eff = effective(case[1])
+        for i, sp in enumerate(eff):
             method, path, qargs, headers, bkind, bval, explicit, fresh = sp
             f += ["req", "wf" if self.wf(sp) else "outside-quantifier", "method:" + method.upper().decode("latin-1"),
                   "body:" + (["raw", "json", "form"][bkind] if not self._multipart(sp) else "multipart") + (":explicit-cl" if explicit else ""),
-                  f"qargs={min(len(qargs), 4)}", f"headers={min(len(headers), 6)}", "requester:" + ("fresh" if fresh or i == 0 else "rebuild")]
+                  f"qargs={min(len(qargs), 4)}", f"headers={min(len(headers), 6)}", "requester:" + ("fresh" if fresh is True or fresh == 1 or i == 0 else ("reuses-stored-path" + (":quote-alters-it" if any(not (chr(c).isalnum() or c in b"/_.-~") for c in path) else "") if fresh == 2 else "rebuild"))]
             if b"?" in path:
                 f.append("path:with-query")
                 if any(k in dict(self._expect_query(sp)) for k, _ in qargs):
@@ -542,7 +594,7 @@ class C14(core.Check):
             if _dups(headers):
                 f.append("header:repeated")
             if i > 0:
-                prev = case[1][i - 1]
+                prev = eff[i - 1]
                 if {n.lower() for n, _ in prev[3]} - {n.lower() for n, _ in headers}:
                     f.append("seq:drops-a-header-of-previous")
                 if prev[5] and prev[0].upper() != b"GET" and not (bval and method.upper() != b"GET"):
